@@ -330,6 +330,14 @@ def _search_history(case, name, prop):
                 return v
         except Exception:
             continue
+    # nothing from the state-rebuilding explorer: the failure may depend on state hidden in the wrapper's closure; run whole
+    # histories on one wrapper
+    try:
+        v = WE.linear_search(case.modname, case.clsname, only, depth=7, budget_s=45.0)
+        if v is not None and WE.replay_history(v):
+            return v
+    except Exception:
+        pass
     return None
 
 
